@@ -10,7 +10,7 @@ from rv import core, monitors
 
 ANCHORS = ['fit_beads_autofluorescence']      # functions the property is anchored in: never entered => inconclusive
 LEVEL = 'exploration'
-LEVEL_TEXT = 'Contract on the real fit: structural identities judged for every fit with positive slope (direct, C02 and Excel workloads) and recovery within 5% on exactly generated bead sets over a lattice + random draws of (m, b, autofluorescence, ladder). Exploration.'
+LEVEL_TEXT = 'Contract on the real fit: structural identities judged for every fit (direct, C02 and Excel workloads; a fitted slope <= 0 makes the curve nan at zero: listed known finding fit-nonpositive-slope; fits whose e^b is not representable are counted only) and recovery within 5% on exactly generated bead sets over a lattice + random draws of (m, b, autofluorescence, ladder). Exploration.'
 TECHNIQUE = 'runtime contract on the bead-model fit (structural identities) + recovery oracle on exactly generated bead sets'
 RULE = ('lattice + random draws of slope m in [0.85,1.25] x intercept b in [0,7] x autofluorescence in {0} U [1,5000] x '
         'bead sets of 5..10 populations cut from realistic MEF ladders (blank included when autofluorescence > 0) with >=5 '
